@@ -252,6 +252,37 @@ def oversize_reply_script(rnd, sid, n):
     return sc
 
 
+def payload_keepalive_script(rnd, sid, sizes):
+    """keep-alives that carry a payload (the reader-initiated message the client reacts to by writing a frame of its own):
+    each acknowledgement must be exactly a 10-byte header-only frame with the keep-alive's id — read off the raw outbound
+    bytes by the peer — and the session goes on: later keep-alives acknowledged, a later request answered."""
+    version = rnd.choice([1, 2])
+    b = cc.SB(sid, version=version)
+    b.connect(cur=rnd.choice([1, 2]), mx=2)
+    tag = rnd.randrange(1, 1 << 20) * 4096
+    b.send(1, rnd.choice(REQ_TYPES), 3, tag + 1)
+    kid = 40
+    for n in sizes:
+        kid += 1
+        b.peer(cc.T_KA, kid, n, tag + 100 + kid, ver=rnd.choice([1, 2]))
+        b.expect()
+        kid += 1
+        b.keepalive(kid)                       # an ordinary one right behind it
+        b.expect()
+    b.reply_to(1, 1023, 5, tag + 2)
+    b.wait(1)
+    b.send(2, rnd.choice(REQ_TYPES), 0, 0)
+    b.peer(cc.T_KA, 4294967295, sizes[0], tag + 7)
+    b.expect()
+    b.reply_to(2, 1023, 2, tag + 3)
+    b.wait(2)
+    b.op("drain")
+    b.op("state")
+    sc = b.script()
+    sc["family"] = "payload-keepalive"
+    return sc
+
+
 def class_scripts(seed, thorough):
     rnd = random.Random(seed + 29)
     out = []
@@ -261,6 +292,8 @@ def class_scripts(seed, thorough):
         out.append(overflow_drain_script(rnd, "c07-overflow-%d" % i, bursts))
     for i, n in enumerate((655361,) + ((655360, 700000, 1500000) if thorough else ())):
         out.append(oversize_reply_script(rnd, "c07-oversize-%d" % n, n))
+    for i, sizes in enumerate([(1, 4, 100, 0), (655361, 1)] + ([(2, 3, 9, 10, 11, 255, 65536), (700000,), (100, 100, 100, 100, 100, 100, 100)] if thorough else [])):
+        out.append(payload_keepalive_script(rnd, "c07-kapayload-%d" % i, sizes))
     return out
 
 
